@@ -35,15 +35,18 @@ def run(ctx):
     rnd = random.Random(ctx.seed * 7919 + 26)
     exe = hb.build(ctx)
     ctx.log('driver built')
-    res = vlib.tlc_must_pass(ctx, os.path.join(SPEC, 'MC_HeaderBlock.tla'), os.path.join(SPEC, 'MC_ContentLength%s.cfg' % ('_t' if ctx.thorough else '_q')),
-                             timeout=3000, label='mc-clen', env=hb.TLC_ENV)
-    ctx.cov['spec_law_states'] = res.distinct
-    ctx.log('spec laws hold (%d value lists)' % res.distinct)
-    blocks = hb.framing_cases(ctx, rnd)
-    # a share of the structural family: framing fields inside folded / odd blocks
-    st = [x for x in hb.structure_cases(ctx, rnd) if b'ontent-' in x[0] or b'ransfer-' in x[0] or rnd.random() < 0.05]
-    blocks += st
-    cases = hb.all_modes(blocks, rnd, full_families=('cl-fields', 'te-cl', 'cl-random'))
+    if ctx.replay:
+        cases = hb.replay_cases(ctx)
+    else:
+        res = vlib.tlc_must_pass(ctx, os.path.join(SPEC, 'MC_HeaderBlock.tla'), os.path.join(SPEC, 'MC_ContentLength%s.cfg' % ('_t' if ctx.thorough else '_q')),
+                                 timeout=3000, label='mc-clen', env=hb.TLC_ENV)
+        ctx.cov['spec_law_states'] = res.distinct
+        ctx.log('spec laws hold (%d value lists)' % res.distinct)
+        blocks = hb.framing_cases(ctx, rnd)
+        # a share of the structural family: framing fields inside folded / odd blocks
+        st = [x for x in hb.structure_cases(ctx, rnd) if b'ontent-' in x[0] or b'ransfer-' in x[0] or rnd.random() < 0.05]
+        blocks += st
+        cases = hb.all_modes(blocks, rnd, full_families=('cl-fields', 'te-cl', 'cl-random'))
     outs, deaths = hb.drive(ctx, exe, cases)
     for idx, rc, err in deaths:
         ctx.violation('HttpHeader::parse died (rc=%s) on %s block %r: %s' % (rc, cases[idx][0], cases[idx][2][:200], err[-400:]),
@@ -85,7 +88,7 @@ def run(ctx):
     ctx.cov['by_owner_mode'] = {'%s/%d' % (ow, r): sum(1 for x in recs if x['owner'] == ow and x['relaxed'] == r) for ow in ('req', 'rep') for r in (0, 1, -1)}
     ctx.cov['sanitised_lengths'] = sum(1 for o in recs if o['ok'] and o['clen']['present'] and bytes(o['block']).lower().count(b'content-length') + bytes(o['block']).count(b',') > 1)
     ctx.cov['ub_reports'] = sum(1 for o in recs if o['ub'])
-    for o in (recs[len(recs) // 7], recs[len(recs) // 2], recs[-1]):
+    for o in ([recs[len(recs) // 7], recs[len(recs) // 2], recs[-1]] if recs else []):
         ctx.sample({'owner': o['owner'], 'relaxed': o['relaxed'], 'block': hb.text(o['block'])[:100], 'decision': decision(o)})
     ctx.cov['rule'] = ('1..3 Content-Length fields with values from %d spellings (valid, leading zeros, signs, garbage, empty, whitespace of every class, '
                        'list forms, 2^63-1, 2^63, 2^64+1), products of 2 sampled (thorough: all), of 3 sampled, in seeded orders, with and without '
